@@ -447,6 +447,148 @@ pub fn check_race(case: &RaceCase) -> CaseResult {
 }
 
 // ---------------------------------------------------------------------------------------------
+// a detach must wait for (and flush) an append that is already in flight
+
+/// sink whose `append` can be held by the harness; its "join handle" flushes what was accepted
+struct SlowSink {
+    accepted: Arc<Mutex<Vec<Id>>>,
+    closed: Arc<std::sync::atomic::AtomicBool>,
+    entered: Arc<(Mutex<bool>, std::sync::Condvar)>,
+    go: Arc<(Mutex<bool>, std::sync::Condvar)>,
+    late: Arc<Mutex<Vec<Id>>>,
+}
+impl EntrySink<BoxEntry> for SlowSink {
+    fn append(&self, entry: BoxEntry) {
+        let Seen::Entry(id) = identify(&entry) else { return };
+        {
+            let mut e = self.entered.0.lock().unwrap();
+            *e = true;
+            self.entered.1.notify_all();
+        }
+        // held here by the harness (bounded)
+        let mut g = self.go.0.lock().unwrap();
+        let deadline = std::time::Instant::now() + std::time::Duration::from_secs(5);
+        while !*g && std::time::Instant::now() < deadline {
+            g = self.go.1.wait_timeout(g, std::time::Duration::from_millis(50)).unwrap().0;
+        }
+        drop(g);
+        if self.closed.load(std::sync::atomic::Ordering::SeqCst) {
+            // the sink has already been shut down and flushed: this entry can never be written
+            self.late.lock().unwrap().push(id);
+        } else {
+            self.accepted.lock().unwrap().push(id);
+        }
+    }
+    fn flush_async(&self) -> FlushWait {
+        FlushWait::ready()
+    }
+}
+struct SlowJoin {
+    closed: Arc<std::sync::atomic::AtomicBool>,
+    flushed: Arc<Mutex<Vec<Id>>>,
+    accepted: Arc<Mutex<Vec<Id>>>,
+}
+impl Drop for SlowJoin {
+    fn drop(&mut self) {
+        // shutting down: flush everything accepted so far, accept nothing afterwards
+        self.closed.store(true, std::sync::atomic::Ordering::SeqCst);
+        let a = self.accepted.lock().unwrap().clone();
+        self.flushed.lock().unwrap().extend(a);
+    }
+}
+
+#[derive(Clone, Debug, Serialize, Deserialize)]
+pub struct InflightCase {
+    pub kind: u8,
+    pub hold_ms: u8,
+    pub before: u8,
+}
+
+pub fn check_inflight(case: &InflightCase) -> CaseResult {
+    let _l = LOCK.lock().unwrap_or_else(|e| e.into_inner());
+    let accepted: Arc<Mutex<Vec<Id>>> = Default::default();
+    let flushed: Arc<Mutex<Vec<Id>>> = Default::default();
+    let late: Arc<Mutex<Vec<Id>>> = Default::default();
+    let closed = Arc::new(std::sync::atomic::AtomicBool::new(false));
+    let entered = Arc::new((Mutex::new(false), std::sync::Condvar::new()));
+    let go = Arc::new((Mutex::new(true), std::sync::Condvar::new()));
+    let sink = SlowSink {
+        accepted: accepted.clone(),
+        closed: closed.clone(),
+        entered: entered.clone(),
+        go: go.clone(),
+        late: late.clone(),
+    };
+    let join = SlowJoin {
+        closed: closed.clone(),
+        flushed: flushed.clone(),
+        accepted: accepted.clone(),
+    };
+    let handle = G0::attach((sink, join));
+    // some ordinary appends first
+    for k in 0..case.before {
+        G0::append(TestE(Id { p: 0, s: k as u32 }));
+    }
+    // now hold the next append inside the sink
+    *go.0.lock().unwrap() = false;
+    *entered.0.lock().unwrap() = false;
+    let id = Id { p: 1, s: 0 };
+    let res = std::thread::scope(|s| {
+        let a = s.spawn(move || match case.kind % 2 {
+            0 => G0::try_append(TestE(id)).is_ok(),
+            _ => {
+                G0::sink().append_any(TestE(id));
+                true
+            }
+        });
+        // wait until the append is inside the sink
+        {
+            let mut e = entered.0.lock().unwrap();
+            let deadline = std::time::Instant::now() + std::time::Duration::from_secs(5);
+            while !*e && std::time::Instant::now() < deadline {
+                e = entered.1.wait_timeout(e, std::time::Duration::from_millis(50)).unwrap().0;
+            }
+        }
+        let d = s.spawn(move || drop(handle));
+        // give the detach time to run (it may legitimately block until the append returns)
+        std::thread::sleep(std::time::Duration::from_millis(case.hold_ms as u64 % 20 + 1));
+        let detach_done_while_append_in_flight = d.is_finished();
+        {
+            let mut g = go.0.lock().unwrap();
+            *g = true;
+            go.1.notify_all();
+        }
+        let ok = a.join().unwrap_or(false);
+        let _ = d.join();
+        (ok, detach_done_while_append_in_flight)
+    });
+    let (ok, early) = res;
+    let fl = flushed.lock().unwrap().clone();
+    let lt = late.lock().unwrap().clone();
+    let mut classes: Classes = vec![];
+    // a sink() handle obtained earlier is a plain clone: only try_append / append go through the global
+    if case.kind % 2 == 0 {
+        vensure!(
+            !ok || fl.contains(&id),
+            "global:accepted-entry-not-written",
+            "try_append returned Ok for an entry that was in flight when the attach handle was dropped, but the detached sink was shut down without it (detach finished while the append was in flight: {early}; late: {lt:?})"
+        );
+        classes.push("try-append-in-flight");
+    } else {
+        classes.push("sink-clone-in-flight");
+    }
+    for k in 0..case.before {
+        vensure!(
+            fl.contains(&Id { p: 0, s: k as u32 }),
+            "global:accepted-entry-not-written",
+            "entry appended before the detach was not flushed by it"
+        );
+    }
+    classes.push("nt");
+    Ok(classes)
+}
+
+// ---------------------------------------------------------------------------------------------
 // AttachHandle::forget is irreversible for a static: one history per child process
 
 pub fn child_forget(arg: &str) -> i32 {
@@ -563,6 +705,16 @@ pub fn run(ctx: &mut Ctx) {
             })
         },
         check_race,
+    );
+    ctx.explore(
+        SubCfg::new(
+            "c17-detach-vs-inflight-append",
+            "deterministic interleaving with a harness-owned sink whose append() is held: thread A is inside try_append (past the destination lookup, inside the sink), thread D drops the attach handle (whose drop flushes what the sink accepted and closes it), then A is released. Oracle: an entry for which try_append returned Ok has been flushed by the detach (equivalently: the detach waits for the in-flight append). Non-trivial = every case",
+            if q { 60 } else { 1_500 },
+        )
+        .shrink_iters(10),
+        || (any::<u8>(), any::<u8>(), 0u8..5).prop_map(|(kind, hold_ms, before)| InflightCase { kind, hold_ms, before }),
+        check_inflight,
     );
     if ctx.replay.is_none() {
         forget_children(ctx);
